@@ -55,13 +55,13 @@ CATALOG_FUNCS = ('exp ln sqrt cbrt sin cos tan atan asin acosh sinh tanh asinh p
                  'erf erfc erfi ncdf ei e1 li si ci shi chi fresnels fresnelc erfinv expint gammainc betainc '
                  'besselj bessely besseli besselk hankel1 struveh struvel ber kei airyai airybi scorergi j0 '
                  'besseljzero airyaizero coulombf angerj lommels1 '
-                 'hyp0f1 hyp1f1 hyp1f2 hyp2f1 hyp2f2 hyp2f0 hyp3f2 hyperu whitm whitw legendre chebyt chebyu hermite '
-                 'legenp legenq gegenbauer laguerre jacobi pcfd pcfu pcfw spherharm appellf1 '
+                 'hyp0f1 hyp1f1 hyp1f2 hyp2f1 hyp2f2 hyp2f0 hyperu whitm whitw legendre chebyt chebyu hermite '
+                 'legenp gegenbauer laguerre jacobi pcfd pcfu pcfw spherharm appellf1 '
                  'ellipk ellipe ellipf elliprf elliprd elliprg elliprc elliprj ellippi agm jtheta lambertw qp kleinj eta '
                  'fib bernoulli eulernum bell primepi mangoldt stirling1 stirling2 cyclotomic').split()
 # ... and composite entry points with fixed small argument families (callbacks, matrices, code that reaches into other
 # contexts: Riemann-Siegel coefficients via ctx._mp, zetazero via ctx._fp, primepi2 via ctx._iv, quadrature node caches)
-SPECIAL_FUNCS = ['zeta-rs', 'siegelz-rs', 'zetazero', 'nzeros', 'primepi2', 'quad', 'quad-ts', 'quadosc', 'nsum', 'nprod', 'diff',
+SPECIAL_FUNCS = ['zeta-rs', 'siegelz-rs', 'zetazero', 'nzeros', 'primepi2', 'quad', 'quad-ts', 'nsum', 'nprod', 'diff',
                  'findroot', 'polyroots', 'taylor', 'pade', 'limit', 'chebyfit', 'fourier', 'invertlaplace', 'odefun',
                  'det', 'inverse', 'lu_solve', 'qr_solve', 'eig', 'eigh', 'svd', 'expm', 'cholesky', 'norm', 'matmul',
                  'pslq', 'identify', 'findpoly', 'stieltjes', 'secondzeta', 'meijerg', 'hyper', 'hypercomb', 'nint_distance',
@@ -72,9 +72,22 @@ SPECIAL_FUNCS = ['zeta-rs', 'siegelz-rs', 'zetazero', 'nzeros', 'primepi2', 'qua
 SLOW_SPECIAL = {'quadosc', 'nsum', 'nprod', 'zetazero', 'nzeros', 'secondzeta', 'stieltjes', 'limit', 'invertlaplace', 'zeta-rs',
                 'siegelz-rs', 'pslq', 'identify', 'findpoly', 'chebyfit', 'fourier', 'odefun', 'quad', 'quad-ts', 'meijerg', 'svd',
                 'eig', 'eigh', 'expm', 'findroot', 'diff', 'taylor', 'pade', 'autoprec', 'polyroots'}
-SLOW_CATALOG = {'appellf1', 'coulombf', 'lommels1', 'besseljzero', 'airyaizero', 'ellippi', 'angerj',
+SLOW_CATALOG = {'angerj', 'appellf1', 'coulombf', 'lommels1', 'besseljzero', 'airyaizero', 'ellippi', 'angerj',
                 'legenq', 'barnesg', 'kei', 'ber', 'spherharm', 'pcfw', 'hyp3f2', 'hyp2f0', 'whitw', 'hyperu', 'betainc', 'erfinv',
                 'polylog', 'struveh', 'struvel', 'scorergi', 'siegelz', 'kleinj'}
+
+
+REAL_ARGS = {'ncdf', 'besseljzero', 'atan2', 'hypot', 'fmod', 'erfinv', 'siegeltheta', 'siegelz', 'betainc', 'spherharm', 'coulombf'}
+
+
+CHEAP_CATEGORIES = ('elementary', 'intpart', 'numtheory', 'gamma')
+
+
+def gen_args(fn, r):
+    """moderate arguments: C38 needs many functions and caches, not hard regimes (those are C12-C24's business)"""
+    elementary = K.ENTRIES[fn][0] in CHEAP_CATEGORIES
+    mag = None if (elementary and r.random() < 0.3) else r.choice([(-3, 3), (-3, 3), (-8, 0), (0, 5)])
+    return K.gen_args(fn, r, bits=r.choice([5, 20, 53]), mag=mag, real_only=(r.random() < 0.55 or fn in REAL_ARGS))
 
 
 def shards(tier, seed):
@@ -174,7 +187,10 @@ class World(object):
         self.expected[name] = self.snap(name)
         if self.boundary and kind in ('mp', 'clone'):
             from vf.instrument import ApiBoundary, public_callables
-            names = [n for n in public_callables(c) if n not in ('clone', 'workprec', 'workdps', 'extraprec', 'extradps')]
+            import types
+            # functions and bound methods only: the constants (pi, eps, ...) are callable *numbers* and must stay numbers
+            names = [n for n in public_callables(c) if n not in ('clone', 'workprec', 'workdps', 'extraprec', 'extradps')
+                     and isinstance(getattr(c, n), (types.FunctionType, types.MethodType, types.BuiltinFunctionType))]
             b = ApiBoundary(c, names, lambda ev, who=name: self.on_call(who, ev), state=lambda c: None,
                             also_module=self.m if kind == 'mp' else None)
             b.install()
@@ -479,6 +495,7 @@ def eval_in(w, name, fn, call):
     A call that exceeds the CPU cap raises CallCapped out of the shard loop: the interrupted library may have left
     a module-level cache half-updated, so nothing is concluded from this process afterwards."""
     import signal
+    _last['call'] = (name, fn, w.ctx[name].prec if name in w.ctx else None, w.label)
     signal.setitimer(signal.ITIMER_PROF, _cap['t'])
     try:
         try:
@@ -515,13 +532,13 @@ def make_call(w, name, r, tier):
         return iv_call(c, r)
     if r.random() < 0.35:
         fn = r.choice(SPECIAL_FUNCS)
-        if not (fn in SLOW_SPECIAL and c.prec > 250):
+        if not (fn in SLOW_SPECIAL and not 30 <= c.prec <= 250):
             call, desc = special_call(c, fn, r, k)
             return call, '%s.%s' % (name, desc), fn
     fn = r.choice(CATALOG_FUNCS)
-    while fn in SLOW_CATALOG and c.prec > 250:
+    while c.prec > 250 and (fn in SLOW_CATALOG or K.ENTRIES[fn][0] not in CHEAP_CATEGORIES):
         fn = r.choice(CATALOG_FUNCS)
-    specs = K.gen_args(fn, r, bits=r.choice([5, 20, 53]), real_only=r.random() < 0.6)
+    specs = gen_args(fn, r)
     f = getattr(c, fn)
 
     def call():
@@ -597,14 +614,15 @@ def run_history(w, r, tier, hid):
             mode = r.choice(['workprec', 'workdps', 'extraprec', 'extradps'])
             arg = q if mode == 'workprec' else r.choice([5, 20, 40, 77]) if mode == 'workdps' else r.choice([7, 30, 100])
             call, lab2, fn2 = make_call(w, o, r, tier)
-            call1, lab1, fn1 = make_call(w, n, r, tier)
-            label = 'with %s.%s(%s): %s ; %s' % (n, mode, arg, lab2, lab1)
+            label = 'with %s.%s(%s): %s' % (n, mode, arg, lab2)
             fn = mode
             w.begin([n], fn, label)
             boom = r.random() < 0.25
             try:
                 with getattr(c, mode)(arg):
                     w.expected[n] = w.snap(n)
+                    call1, lab1, fn1 = make_call(w, n, r, tier)          # chosen at the precision in force inside the block
+                    label += ' ; ' + lab1
                     w.begin([n, o], fn2, label)
                     out = eval_in(w, o, fn2, call)
                     check_ownership(w, o, fn2, out, label)
@@ -689,18 +707,21 @@ def equivalence_probe(w, r, tier, in_history=False, forced=None):
         desc = fn
     else:
         fn = forced or r.choice(CATALOG_FUNCS)
-        specs = K.gen_args(fn, r, bits=r.choice([5, 20, 53]), real_only=r.random() < 0.5)
+        specs = gen_args(fn, r)
         mk = lambda c: (lambda: getattr(c, fn)(*[K.build(c, s) for s in specs]))
         desc = '%s(%s)' % (fn, ', '.join(show(s) for s in specs))
     if fn in ('pslq', 'identify', 'findpoly') and p < 53:
         p = 53
-    if (fn in SLOW_SPECIAL or fn in SLOW_CATALOG) and p > 250:
+    if fn in SLOW_SPECIAL and p < 30:
+        p = 30 + p
+    if p > 250 and (fn in SLOW_SPECIAL or fn in SLOW_CATALOG or (fn in K.ENTRIES and K.ENTRIES[fn][0] not in CHEAP_CATEGORIES)):
         p = r.choice([53, 64, 100, 113, 200])
     order = r.choice(['clone-first', 'mp-first'])
     warm = r.random() < 0.5          # a third context evaluates the same thing at another precision in between / before
     third = w.ctx[r.choice([n for n in ('c1', 'c2', 'c3') if n != cname])]
-    saved = {n: (w.ctx[n].prec, getattr(w.ctx[n], 'trap_complex', None)) for n in ('mp', 'c1', 'c2', 'c3')}
-    tc = r.random() < 0.2
+    saved = {n: (w.ctx[n].prec, getattr(w.ctx[n], 'trap_complex', None), w.ctx[n].pretty) for n in ('mp', 'c1', 'c2', 'c3')}
+    tc = False       # trap_complex=True makes internal real->complex steps raise depending on what a context has memoized: not an isolation question
+    pretty = r.random() < 0.3          # str/repr depend on this per-context setting: same setting on both sides
     res = {}
 
     def run(c, who):
@@ -709,6 +730,7 @@ def equivalence_probe(w, r, tier, in_history=False, forced=None):
         other.prec = pick_prec(r, avoid=p)
         third.prec = pick_prec(r, avoid=p)
         c.trap_complex = tc
+        c.pretty = pretty
         w.begin(['mp', 'c1', 'c2', 'c3'], fn, 'equiv %s in %s at %d' % (desc, who, p))
         res[who] = eval_in(w, who, fn, mk(c))
         if res[who][0] == 'ok':
@@ -718,12 +740,13 @@ def equivalence_probe(w, r, tier, in_history=False, forced=None):
                 rec.violation('C38/result-foreign-context/%s' % fn, 'a call made through %s returned objects of context %s' % (who, bad),
                               {'call': desc, 'prec': p}, observed=bad, expected=[who])
     seq = [(cl, cname), (mp, 'mp')] if order == 'clone-first' else [(mp, 'mp'), (cl, cname)]
+    slow = fn in SLOW_SPECIAL or fn in SLOW_CATALOG or (fn in K.ENTRIES and K.ENTRIES[fn][0] not in CHEAP_CATEGORIES)
     if warm and r.random() < 0.5:
-        third.prec = pick_prec(r, avoid=p) + 64
+        third.prec = (r.choice([30, 77, 150, 250]) if slow else pick_prec(r, avoid=p) + 64)
         eval_in(w, 'third', fn, mk(third))
     run(*seq[0])
     if warm:
-        third.prec = max(p + r.choice([-7, 13, 200]), 10)
+        third.prec = max(p + r.choice([-7, 13, 50 if slow else 200]), 10)
         eval_in(w, 'third', fn, mk(third))
     run(*seq[1])
     a, b = res[cname], res['mp']
@@ -745,16 +768,19 @@ def equivalence_probe(w, r, tier, in_history=False, forced=None):
             mp.prec = p; cl.prec = pick_prec(r, avoid=p)
             again = eval_in(w, 'mp', fn, mk(mp))
             rg = ('exc', again[1]) if again[0] == 'exc' else ('ok', raw_of(again[1]))
+            key = 'C38/clone-differs/%s' % fn
+            what = 'clone and mp give different raw results for the same exact input at the same precision'
             if rg == ra and rg != rb:
-                key = 'C38/clone-differs-cache-history/%s' % fn
-                what = 'mp itself gives the clone\'s value when evaluated again: result depends on cache state filled in between'
-            else:
-                key = 'C38/clone-differs/%s' % fn
-                what = 'clone and mp give different raw results for the same exact input at the same precision'
-        rec.violation(key, what, case, observed={'clone': short(ra), 'mp': short(rb), 'messages': msg[:200]}, expected='bit-identical raw results')
-    for n, (pp, t) in saved.items():
+                case['mp_evaluated_again_gives_the_clone_value'] = True
+                what += ' (mp evaluated again gives the clone\'s value: the result depends on cache state filled in between)'
+        if _taint['n'] and not key.startswith('C38/clone-lacks'):
+            rec.undecided('clone-vs-mp mismatch after an interrupted call in this process (caches possibly inconsistent)', case)
+        else:
+            rec.violation(key, what, case, observed={'clone': short(ra), 'mp': short(rb), 'messages': msg[:200]}, expected='bit-identical raw results')
+    for n, (pp, t, pt) in saved.items():
         w.ctx[n].prec = pp
         w.ctx[n].trap_complex = t
+        w.ctx[n].pretty = pt
     for n in ('mp', 'c1', 'c2', 'c3'):
         w.expected[n] = w.snap(n)
     return fn
@@ -780,14 +806,19 @@ def run_shard(shard, rec):
     import signal
     signal.signal(signal.SIGPROF, _on_prof)
     _cap['t'] = CALL_CAP[tier]
-    try:
-        _run(shard, rec, tier, r, t0, anchors, mpmath)
-    except CallCapped:
-        rec.undecided('a library call exceeded the per-call CPU cap; the rest of the shard was not run', {'last_step': _last.get('label')})
-        rec.event('shards stopped after a capped call')
+    _run(shard, rec, tier, r, t0, anchors, mpmath)
 
 
 _last = {}
+_taint = {'n': 0}
+
+
+def capped(rec):
+    """a library call was interrupted by the per-call CPU cap: the history is abandoned; module-level caches may be
+    half-updated from now on, so later clone-vs-mp mismatches in this process are `undecided`, not violations
+    (the state checks stay valid: no cache can change a context's settings)"""
+    _taint['n'] += 1
+    rec.undecided('a library call exceeded the per-call CPU cap (history abandoned)', {'last_call (context, function, prec, step)': _last.get('call')})
 
 
 def _run(shard, rec, tier, r, t0, anchors, mpmath):
@@ -802,10 +833,12 @@ def _run(shard, rec, tier, r, t0, anchors, mpmath):
             w = World(mpmath, rec, r)
             try:
                 run_history(w, r, tier, h)
+                rec.event('histories run')
+            except CallCapped:
+                capped(rec)
             finally:
                 w.close()
                 rec.event('wrapped calls seen by ApiBoundary', w.wrapped_calls)
-            rec.event('histories run')
         # dedicated equivalence probes: every function at least once per shard (seed-independent set), then random
         w = World(mpmath, rec, r, boundary=False)
         try:
@@ -816,7 +849,14 @@ def _run(shard, rec, tier, r, t0, anchors, mpmath):
                     skipped += ne - i
                     break
                 forced = allf[(i + shard['shard'] * 13) % len(allf)] if i < len(allf) else None
-                fn = equivalence_probe(w, r, tier, forced=forced)
+                try:
+                    fn = equivalence_probe(w, r, tier, forced=forced)
+                except CallCapped:
+                    capped(rec)
+                    for n in ('mp', 'c1', 'c2', 'c3'):
+                        w.ctx[n].prec = 53
+                        w.expected[n] = w.snap(n)
+                    continue
                 w.after_step(['mp', 'c1', 'c2', 'c3'], fn, 'equivalence probe ' + fn)
                 w.history = []
         finally:
